@@ -390,6 +390,7 @@ func (d BigDec) ApproxRoot(root uint64) (guess BigDec, err error) {
 	guess, delta := OneDec(), OneDec()
 
 	for delta.Abs().GT(SmallestDec()) {
+		verifApproxRootIter()
 		prev := guess.Power(root - 1)
 		if prev.IsZero() {
 			prev = SmallestDec()
